@@ -162,6 +162,33 @@ theorem flush_spec_reachable (lines cols g1 g2 : Int) (hl : 0 ≤ lines) (hc : 0
     FlushSpec (RB.run (RB.new lines cols g1 g2) prog) :=
   flush_spec _ (flushWF_of_WF (run_wf prog (new_refines lines cols g1 g2 hl hc).1) hcont)
 
+/-- **flush_spec_program**: the quantifier of the property — "every buffer content reachable by drawing programs".
+    For every program over the operations of C03 (texts accepted or rejected, cursor-relative and absolute drawing,
+    erase, skip, lines, rectangles, clips, masks, translations, pens, save/savepen/restore, reset, in any order) run on
+    a fresh buffer, provided it draws only one-column CHAR code points (the known finding otherwise) and line styles
+    single/double/thick: the flush of the resulting buffer satisfies `FlushSpec`.  The run structure comes from C03's
+    invariant and refinement (`run_refines`), the presentability of the content (`ContentOK`) is proved here at the level
+    of C03's cell-wise specification, and the acceptance test of `put_string` (`tickit_utf8_ncount` with the length) is
+    shown to imply the NUL-terminated decoding the flush relies on (`decode_of_stringColumns`). -/
+theorem flush_spec_program (lines cols g1 g2 : Int) (hl : 0 ≤ lines) (hc : 0 < cols) (prog : List Op)
+    (hok : ∀ o ∈ prog, OpOK o) : FlushSpec (RB.run (RB.new lines cols g1 g2) prog) :=
+  flush_spec _ (flushWF_of_program lines cols g1 g2 hl hc prog hok)
+
+/-- Non-vacuity: a program with a clip, a translation, a mask under `save`, a text cut inside double-width characters, a
+    line across it and a `restore`. -/
+example : FlushSpec (RB.run (RB.new 2 8 7 7)
+    [.clip ⟨0, 1, 2, 6⟩, .translate 0 1, .save, .mask ⟨0, 3, 1, 1⟩,
+     .textAt 0 (-1) [0x78, 0xef, 0xbc, 0xa1, 0x79, 0xe4, 0xb8, 0x80, 0x7a], .vlineAt 0 1 2 2 3, .charAt 1 0 0x51,
+     .restore, .eraseAt 1 4 9]) :=
+  flush_spec_program 2 8 7 7 (by decide) (by decide) _ (by
+    intro o ho
+    simp only [List.mem_cons, List.mem_nil_iff, or_false] at ho
+    rcases ho with rfl | rfl | rfl | rfl | rfl | rfl | rfl | rfl | rfl
+    all_goals first
+      | exact trivial
+      | exact (by decide : (1 : Nat) ≤ 2 ∧ 2 ≤ 3)
+      | exact (by unfold CharOK; decide +kernel : CharOK 0x51))
+
 /-- Everything to the right of a text lands in its own column: after the requests of a TEXT run the terminal cursor
     has advanced by exactly the run's columns, whatever part of the text the run shows. -/
 theorem text_run_advances (rb : RB) (line col : Int) (hl : 0 ≤ line ∧ line < rb.lines) (h0 : 0 ≤ col)
@@ -219,6 +246,14 @@ theorem text_columns (s : List UInt8) (cs : List Ch) (hdec : decode s = some cs)
   · have hb := decodeFrom_bytes s cs.length cs _ 0 hdec
     rw [List.take_length, List.drop_zero] at hb
     rw [hb, printBytes_chars cs hp, putChs_col]
+
+/-- The same for the number `put_string` goes by (`tickit_utf8_ncount` over the whole string, the columns the text
+    occupies in the buffer and the virtual cursor advances by — C03 `cursor_advances`): it is the sum of the widths, and
+    the terminal advances by exactly that number. -/
+theorem text_columns_put_string (s : List UInt8) (n : Int) (h : Utf8.stringColumns s = some n) (t : GridTerm) :
+    ∃ cs, decode s = some cs ∧ chCols cs = n ∧ (t.printBytes (s.take (bytesLen cs))).col = t.col + n := by
+  obtain ⟨cs, hcs, hn⟩ := decode_of_stringColumns s n h
+  exact ⟨cs, hcs, hn, by rw [(text_columns s cs hcs t).2.2, hn]⟩
 
 /-- Non-vacuity: `a`, U+0301 (zero-width), U+FF21 (double-width), `b` occupy 1 + 0 + 2 + 1 = 4 columns. -/
 example : (decode [0x61, 0xcc, 0x81, 0xef, 0xbc, 0xa1, 0x62]).map (fun cs => (cs.length, chCols cs, bytesLen cs)) =
